@@ -58,6 +58,8 @@ class Check:
         self.kf_hits = {}
         self.clause_fail_counts = {}
         self.branch_hits = {}
+        self.beyond = {}           # failing instances of the X* clauses (behaviour beyond the listed properties)
+        self.beyond_lines = 0
         self.notes = []
         self.extra = {}
         self.assumptions = []
@@ -84,6 +86,9 @@ class Check:
             self.lines += len(tr)
             prev_raw = ""
             for ln in tr:
+                if ln.get("kind") in ("subgraph", "empty_copy") or any(
+                        isinstance(e, dict) and str(e.get("fn", "")).startswith("x_") for e in ln.get("es", ()) if ln.get("op") == "stats"):
+                    self.beyond_lines += 1
                 if ln.get("fork"):
                     self.fork_lines += 1
                 call = json.dumps(_strip_line(ln), sort_keys=True)
@@ -98,6 +103,10 @@ class Check:
                 k = "%s/%s" % (br[0], br[1])
                 self.branch_hits[k] = self.branch_hits.get(k, 0) + 1
             for (lno, clause, status) in v["fails"]:
+                if clause.startswith("X"):
+                    # behaviour beyond the listed properties: specified and judged, reported, never a violation
+                    self.beyond[clause] = self.beyond.get(clause, 0) + 1
+                    continue
                 if not clause.startswith(self.prefixes):
                     continue
                 if status.startswith("KF"):
@@ -167,6 +176,11 @@ class Check:
             "failing_clauses": self.clause_fail_counts,
             "add_interaction_branches_on_real_code": dict(sorted(self.branch_hits.items())),
         }
+        if self.beyond_lines or self.beyond:
+            cov["beyond_the_listed_properties"] = {
+                "note": "clauses X* specify behaviour no listed property states (subgraph views, create_empty_copy, the pair form of "
+                        "the inter-event distribution); deviations are reported here and are never a violation",
+                "lines_judged": self.beyond_lines, "deviating_clause_instances": dict(sorted(self.beyond.items()))}
         if explanation:
             cov["explanation"] = explanation
         cov.update(self.extra)
